@@ -336,8 +336,11 @@ flexrule	:  '^' rule
 					lwarn(
 			"all start conditions already have <<EOF>> rules" );
 
-				else
-					build_eof_action();
+				/* Even without a start condition left to
+				 * attach it to, the action that follows has
+				 * to be opened like any other.
+				 */
+				build_eof_action();
 				}
 			}
 
